@@ -2,6 +2,7 @@
 // and fenced with manually poisoned AddressSanitizer regions (64 KiB after, 4 KiB before), so that an
 // overflowing write is REPORTED by ASan (recover mode) but lands in memory nobody else uses — the harness
 // survives arbitrarily long overflows and can print the verdict for that input.
+// The usable bytes are pre-filled with a sentinel pattern of sync bytes (0x2E 0x31 0xD3 0x2E).
 // guarded_block(n, align): n usable bytes starting at an address = align (mod 4) and ending exactly where
 // the poisoned tail begins.  operator new[] / delete[] are replaced so that the framer's internally
 // allocated ("managed") buffer is fenced the same way while g_guard_new is set.
@@ -16,6 +17,8 @@ static uint8_t* g_arena = nullptr;
 static size_t g_arena_size = 64u << 20;
 static size_t g_arena_used = 0;
 static bool g_guard_new = false;
+static uint8_t* g_last_start = nullptr;   // the block handed out last
+static size_t g_last_len = 0;
 static const size_t GUARD_BEFORE = 4096, GUARD_AFTER = 64u << 10;
 
 static void arena_reset() {
@@ -35,6 +38,10 @@ static uint8_t* guarded_block(size_t n, int align) {
   // place the block so that it ENDS at `stop`, with stop - n = align (mod 4)
   uint8_t* start = base + GUARD_BEFORE + (size_t)align;   // = align mod 4
   uint8_t* stop = start + n;
+  // stale-memory sentinel: sync bytes of both framers, so that a read of bytes the framer never stored shows up
+  static const uint8_t pat[4] = {0x2E, 0x31, 0xD3, 0x2E};
+  for (uint8_t* q = base + GUARD_BEFORE; q < end; ++q) *q = pat[(q - base) & 3];
+  g_last_start = start; g_last_len = n;
   __asan_poison_memory_region(base, GUARD_BEFORE);
   __asan_poison_memory_region(stop, (size_t)(end - stop) + GUARD_AFTER);
   g_arena_used += GUARD_BEFORE + body + GUARD_AFTER;
